@@ -57,7 +57,7 @@ fn case<S: Scheme>(ctx: &mut Ctx, rng: &mut ChaCha20Rng) {
     let txj = tx.json();
     // ---- (a) value perturbation at positions of the batch
     let keys: Vec<_> = q.evals.keys().cloned().collect();
-    let npos = keys.len().min(if thorough { 6 } else { 4 });
+    let npos = keys.len().min(if thorough { 16 } else { 12 });
     let start = below(rng, keys.len());
     for t in 0..npos {
         let key = &keys[(start + t) % keys.len()];
